@@ -13,7 +13,7 @@ int main(void)
 		unsigned long long B, L, E;
 		of_blocking_struct_t bs;
 		if (sscanf(line, "B %llu %llu %llu", &B, &L, &E) != 3) { printf("R BADREQ\n"); continue; }
-		memset(&bs, 0, sizeof bs);
+		memset(&bs, 0xA7, sizeof bs);	/* an OUT structure: whatever it held before must not show through */
 		of_compute_blocking_struct((UINT32)B, (UINT32)L, (UINT32)E, &bs);
 		printf("R %u %u %u %u\n", bs.nb_blocks, bs.A_large, bs.A_small, bs.I);
 	}
